@@ -603,18 +603,19 @@ Definition start (rec : rec_t) (fuel : nat) (e : env) (m : mode) (t : name) (w :
           | VNeed l =>
               if e_no_oob e then prepend_events evd (start_self rec e t f before w)
               else
-                (* start_deps_unlocked: redo-unlocked t l *)
+                (* start_deps_unlocked: redo-unlocked t l; the child inherits t's id in
+                   REDO_CYCLES (fix F21): t's lock stays held, asking for t again is a cycle *)
                 let names := order_by_hints (hints w) (dedupe_names (map (fun i => r_name (get_row (dbs w) i)) l)) in
                 let env1 := {| e_runid := runid; e_target := e_target e; e_unlocked := false;
                                e_no_oob := true; e_keep_going := e_keep_going e;
-                               e_cycles := e_cycles e |} in
+                               e_cycles := f :: e_cycles e |} in
                 match rec env1 MIfChange names w with
                 | EFuel => EFuel
                 | Ret (w1, ev1, rc1) =>
                     if negb (Z.eqb rc1 0) then Ret (w1, evd ++ EvCheck t :: ev1, rc1, false) else
                     let env2 := {| e_runid := runid; e_target := e_target e; e_unlocked := true;
                                    e_no_oob := true; e_keep_going := e_keep_going e;
-                                   e_cycles := e_cycles e |} in
+                                   e_cycles := f :: e_cycles e |} in
                     match rec env2 MIfChange [t] w1 with
                     | Ret (w2, ev2, rc2) => Ret (w2, evd ++ EvCheck t :: ev1 ++ ev2, rc2, false)
                     | EFuel => EFuel
